@@ -150,9 +150,35 @@ func scenC13(c *ctx) {
 		c.rec.Emit(doValidateTOTP(fmt.Sprintf("C13/badskewT/%d", i), secret, refHOTP(key, uint64(sec)/30, int(d), int(a)), time.Unix(sec, 0), P{Digits: d, Alg: a, Skew: 11 + uint64(c.rng.Intn(1000)), Period: 30}))
 		c.rec.Emit(doValidateTOTP(fmt.Sprintf("C13/badalgT/%d", i), secret, code, time.Unix(sec, 0), P{Digits: d, Alg: 3 + uint8(c.rng.Intn(250)), Skew: s, Period: 30}))
 		c.rec.Emit(doValidateHOTP(fmt.Sprintf("C13/baddigits/%d", i), secret, code+"00000", ctr, P{Digits: 11 + uint8(c.rng.Intn(200)), Alg: a, Skew: s}))
-		damaged := b32(key)
-		k := c.rng.Intn(len(strings.TrimRight(damaged, "=")))
-		damaged = damaged[:k] + "!" + damaged[k+1:]
+		// every way a secret text can be undecodable (each failure path may build its own error text)
+		damaged := strings.TrimRight(b32(key), "=")
+		k := c.rng.Intn(len(damaged))
+		switch i % 12 {
+		case 0:
+			damaged = damaged[:k] + "!" + damaged[k+1:]
+		case 1:
+			damaged = damaged[:k] + "\u200b" + damaged[k:] // pasted zero-width space
+		case 2:
+			damaged = "\ufeff" + damaged // byte-order mark
+		case 3:
+			damaged = damaged[:k] + "\u017f" + damaged[k+1:] // letter whose upper case is S
+		case 4:
+			damaged = damaged + "\xff"
+		case 5:
+			damaged = damaged[:k] + "1" + damaged[k+1:]
+		case 6:
+			damaged = damaged[:k] + "8" + damaged[k+1:]
+		case 7:
+			damaged = damaged[:k] + "=" + damaged[k+1:] + "A"
+		case 8:
+			damaged = damaged[:len(damaged)-len(damaged)%8] + "A" // impossible length (one character in the last block)
+		case 9:
+			damaged = damaged[:k] + "\xc3\xa9" + damaged[k+1:] // é
+		case 10:
+			damaged = damaged[:k] + "-" + damaged[k:]
+		default:
+			damaged = damaged[:k] + "\x00" + damaged[k+1:]
+		}
 		c.rec.Emit(doValidateHOTP(fmt.Sprintf("C13/badsecret/%d", i), damaged, code, ctr, P{Digits: d, Alg: a, Skew: s}))
 		c.rec.Emit(doValidateTOTP(fmt.Sprintf("C13/badsecretT/%d", i), damaged, code, time.Unix(sec, 0), P{Digits: d, Alg: a, Skew: s, Period: 30}))
 		c.rec.Emit(doGenerateHOTP(fmt.Sprintf("C13/genbadsecret/%d", i), damaged, ctr, P{Digits: d, Alg: a}))
